@@ -105,7 +105,7 @@ def _havoc_stmt(which, names):
 HAVOC_NAMES = {
     'conelp': ('tau', 'kappa', 'gap', 'W', 'dg', 'dgi', 'x1', 'y1', 'z1', 'th'),
     'coneqp': ('gap', 'W'),
-    'cpl': ('gap', 'pres0', 'dres0', 'resx0', 'resznl0', 'gap0', 'theta1', 'theta2', 'theta3'),
+    'cpl': ('gap', 'pres0', 'dres0', 'resx0', 'resznl0', 'gap0', 'theta1', 'theta2', 'theta3', 'W', 'relaxed_iters', 'phi0'),
 }
 CONEPROG_SPECS = {
     'conelp': _havoc_stmt('conelp', HAVOC_NAMES['conelp']),
